@@ -124,8 +124,14 @@ def generate(rng, repo_root, config="A", opts=None):
         ops.append(_draw_plain_op(rng, kind, k, ospec, fluids, grids))
         if ops[-1]["op"] == "simulate":
             last_grid[k] = ops[-1]["grid"]
-    return {"property": "C10", "config": config, "strict_alphabet": strict, "fluids": fluids,
-            "objects": objs, "grids": grids, "ops": ops}
+    scn = {"property": "C10", "config": config, "strict_alphabet": strict, "fluids": fluids,
+           "objects": objs, "grids": grids, "ops": ops}
+    # the way a script is usually written: ONE array object per grid (and per schedule), handed to every
+    # simulate call that uses it, on every object - so state keyed on argument identity (``time is self.time``,
+    # id()-keyed memos, arrays kept by reference) is reachable.  References always get private copies.
+    if rng.random() < 0.4:
+        scn["share_arrays"] = True
+    return scn
 
 
 def _weighted(rng, kinds, weights):
@@ -315,12 +321,24 @@ class Runner:
             pf = np.array(pf, dtype=float)
         return cls(int(ospec["nx"]), pf, float(ospec["pi"]), fl)
 
-    def _args(self, op):
+    def _args(self, op, shared=False):
+        how = (op.get("fault") or {}).get("how")
+        if shared and how is None and op.get("container") != "list":
+            pool = self.__dict__.setdefault("_shared_args", {})
+            kt = ("t", op["grid"])
+            if kt not in pool:
+                pool[kt] = world.grid_array(self.scn["grids"][op["grid"]])
+            sched = None
+            if op.get("sched") is not None:
+                ks = ("s", tuple(op["sched"]["v"]))
+                if ks not in pool:
+                    pool[ks] = np.array(op["sched"]["v"], dtype=float)
+                sched = pool[ks]
+            return pool[kt], sched
         t = world.grid_array(self.scn["grids"][op["grid"]])
         sched = None
         if op.get("sched") is not None:
             sched = np.array(op["sched"]["v"], dtype=float)
-        how = (op.get("fault") or {}).get("how")
         if op.get("container") == "list" and how is None:
             t = [float(v) for v in t]
             if sched is not None:
@@ -333,13 +351,13 @@ class Runner:
             t = float(t[-1])
         return t, sched
 
-    def _call(self, res, op, fault=None):
+    def _call(self, res, op, fault=None, shared=False):
         """Execute op on res. Returns Out. BaseExceptions from injected faults are caught here."""
         kind = op["op"]
 
         def thunk():
             if kind == "simulate":
-                t, sched = self._args(op)
+                t, sched = self._args(op, shared)
                 if sched is None:
                     return res.simulate(t)
                 return res.simulate(t, sched)
@@ -528,7 +546,8 @@ class Runner:
                 s.append(k)
 
             self._last_interp = None
-            out_r, fired = self._call(real, op, fault if fault and fault["kind"] in ("F-crash-line", "F-solver-raise", "F-alpha-raise") else None)
+            out_r, fired = self._call(real, op, fault if fault and fault["kind"] in ("F-crash-line", "F-solver-raise", "F-alpha-raise") else None,
+                                      shared=bool(scn.get("share_arrays")))
             st_r = self._state(real)
             # an interpolator, once built, is a function: later recovery / interpolator calls must not change
             # what it returns (tracked until the next simulate attempt on that object)
@@ -704,6 +723,11 @@ class Runner:
                              out_r.brief(), _digest(st_r[0]) if isinstance(st_r[0], np.ndarray) else str(st_r[0]),
                              _digest(st_r[1]) if st_r[1] is not None else None, bool(fired)))
         # auxiliary: shared fluids and caller tables untouched
+        for key, arr in self.__dict__.get("_shared_args", {}).items():
+            self.probe("shared_argument_arrays_used")
+            want = world.grid_array(scn["grids"][key[1]]) if key[0] == "t" else np.array(key[1], dtype=float)
+            if not np.array_equal(np.asarray(arr), want):
+                self.probe("caller_argument_array_changed")
         for j, f in enumerate(fluids):
             if self._fluid_surface(f) != self.fluid_digest0[j]:
                 self.probe("shared_fluid_surface_changed")
@@ -950,8 +974,8 @@ def merge(a, b):
             a["samples"].append(s)
 
 
-def sample_repr(scn):
-    return {"config": scn["config"],
+def sample_repr(scn):  # (share_arrays is shown in the history line when set)
+    return {"config": scn["config"], "share_arrays": bool(scn.get("share_arrays")),
             "objects": [f'{o["cls"]}(nx={o["nx"]}, pf={o["pf"]}, pi={o["pi"]}, fluid={o.get("fluid")})' for o in scn["objects"]],
             "fluids": [f'{f["family"]}@p_i={f["p_i"]}' for f in scn["fluids"]],
             "grid_lengths": {g: len(v["t"]) for g, v in scn["grids"].items()},
@@ -996,6 +1020,10 @@ def shrink_candidates(scn):
                 o["fluid"] = remap[o["fluid"]]
         yield c
     # simpler arguments
+    if scn.get("share_arrays"):
+        c = copy.deepcopy(scn)
+        c.pop("share_arrays")
+        yield c
     for i, o in enumerate(scn["objects"]):
         if o["nx"] > 3:
             c = copy.deepcopy(scn)
